@@ -16,7 +16,7 @@ From AC Require Import Num RInst Params Kernels Clock Day DayConcrete RunConcret
 From AC.Water Require RootZone RainIrr Infiltration Drainage Groundwater Evaporation Transpiration.
 From AC.Crop Require Canopy Roots Yield.
 From AC.proofs Require Import ProfR DayP DayConcreteP InertR InertRunU InertRunS InertRunP.
-From AC.proofs Require EvaporationR RootsR RainIrrR YieldR.
+From AC.proofs Require EvaporationR RootsR RainIrrR YieldR InfiltrationR.
 Import ListNotations.
 Local Open Scope R_scope.
 
@@ -346,9 +346,36 @@ Section RunNeutral.
   Qed.
 End RunNeutral.
 
+(* the transformations in combination: inert differences, then mulches at a neutral value switched off, then the
+   irrigation management at a neutral setting replaced by the rainfed one *)
+Theorem run_neutral_combined par par' crops c ws fuel m0 r :
+  par_inert_eq par par' -> mulch_neutral (p_field par') -> mulch_neutral (p_fallow_field par') -> irr_neutral_run (p_irr par') ws ->
+  0 <= d_irr_cum (phys (st m0)) ->
+  run_till_c par crops c ws fuel m0 = Some r -> not_stopped r ->
+  run_till_c (par_rainfed (par_mulch_off par')) crops c ws fuel m0 = Some r.
+Proof.
+  intros HE M1 M2 HN H0 H Hns.
+  rewrite (run_inert_concrete par par' crops HE), (run_mulch_neutral par' crops M1 M2) in H.
+  exact (run_neutral_concrete (par_mulch_off par') crops c ws HN fuel m0 r H0 H Hns).
+Qed.
+
 (* the side condition of the seasonal maximum 0 is needed: with a negative seasonal counter water is applied *)
 Example irr_season_max0_refuted : RainIrr.irr_season (F:=R) 0 (-5) 3 = (-2, 3).
 Proof. unfold RainIrr.irr_season. rnum. destruct (Rltb_spec 0 (-5 + 3)); [lra|]. f_equal; lra. Qed.
+
+(* AppEff is NOT inert under methods 3 and 5 at the day level, although [InertR.irr_method_inert_3/5] list it among the
+   parameters the request of these strategies does not read: infiltration multiplies whatever was applied by AppEff / 100.
+   Witness (InfiltrationR's example field): 20 mm applied, efficiency 75 % against 50 %. *)
+Example infiltration_eff_inert_refuted :
+  Infiltration.infiltration InfiltrationR.ex_p 5 InfiltrationR.ex_fc InfiltrationR.ex_th 30 20 75 true 100 InfiltrationR.ex_fl 10 4 true <>
+  Infiltration.infiltration InfiltrationR.ex_p 5 InfiltrationR.ex_fc InfiltrationR.ex_th 30 20 50 true 100 InfiltrationR.ex_fl 10 4 true.
+Proof.
+  destruct InfiltrationR.infiltration_defined_ex as [[[[[[th1 s1] dp1] ro1] in1] fl1] E]. unfold InfiltrationR.ex_run in E.
+  rewrite E. intros H. symmetry in H.
+  pose proof (InfiltrationR.surface_identity _ _ _ _ _ _ _ _ _ _ _ _ _ _ _ _ _ _ _ E) as A.
+  pose proof (InfiltrationR.surface_identity _ _ _ _ _ _ _ _ _ _ _ _ _ _ _ _ _ _ _ H) as B.
+  unfold InfiltrationR.offered in A, B. rewrite Rmax_left in A, B by lra. lra.
+Qed.
 
 (* ================================================================================================================ *)
 (*  the transformations change the records                                                                            *)
@@ -387,3 +414,4 @@ Print Assumptions run_steps_mulch_neutral.
 Print Assumptions day_irrigation_neutral_concrete.
 Print Assumptions run_neutral_concrete.
 Print Assumptions run_steps_neutral_concrete.
+Print Assumptions run_neutral_combined.
